@@ -6,7 +6,8 @@ from common import Corr, Model, run_jobs
 
 PINS = ["src/xdist/workermanage.py"]
 TREE = ["proj/", "proj/pkg/", "proj/pkg/test_a.py", "proj/pkg/sub/", "proj/pkg/sub/test_b.py", "proj/other/", "proj/other/test_c.py",
-        "lib/", "lib/x.py", "proj/pkg/we ird.py", "outside.py"]
+        "lib/", "lib/x.py", "proj/pkg/we ird.py", "outside.py", "proj/pkg_tests/", "proj/pkg_tests/test_d.py", "proj/pkg2/",
+        "proj/pkg2/test_e.py", "lib.old/", "lib.old/y.py", "proj/pkg.py"]
 SELECTORS = ["", "::test_x", "::TestK::test_m", "::test_p[a::b]", "::", "::a::"]
 PAT_CHARS = ["a", "b", ".", "*", "?", "[ab]", "[!a]", "[a-c]", "[]a]", "[", "~", "py", "c", "/", "-", "[!]]", "x"]
 STR_CHARS = ["a", "b", "c", ".", "/", "~", "py", "x", "[", "]", "-", "d"]
@@ -27,7 +28,8 @@ def run(out: common.Outcome):
         for _ in range(rnd.randint(1, 3)):
             base = rnd.choice(["$B/proj/pkg/test_a.py", "$B/proj/pkg/sub/test_b.py", "$B/proj/pkg", "$B/proj", "$B/lib/x.py",
                                "$B/outside.py", "$B/proj/pkg//test_a.py", "$B/proj/./pkg/test_a.py", "$B/proj/pkg/", "proj/pkg/test_a.py",
-                               "nothere.py", "$B/proj/missing.py", "$B/proj/pkg/we ird.py", "$B/proj/other/../pkg/test_a.py", "-k", "expr and x"])
+                               "nothere.py", "$B/proj/missing.py", "$B/proj/pkg/we ird.py", "$B/proj/other/../pkg/test_a.py", "-k", "expr and x",
+                               "$B/proj/pkg_tests/test_d.py", "$B/proj/pkg2/test_e.py", "$B/lib.old/y.py", "$B/proj/pkg.py", "$B/proj/pkg2"])
             args.append(base + rnd.choice(SELECTORS))
         jobs.append({"kind": "reltoroot", "tree": TREE, "roots": roots, "args": args})
     res = run_jobs("drive_pure.py", jobs, nproc=10)
@@ -43,6 +45,11 @@ def run(out: common.Outcome):
         else:
             hist["rewritten"] += sum(1 for a, b in zip(r["args"], r["result"]) if a != b)
             hist["unchanged"] += sum(1 for a, b in zip(r["args"], r["result"]) if a == b)
+        # monitor (independent of the model): containment is by path COMPONENTS; first containing root; outside all roots -> rejected
+        exp = _expected_reltoroot(r["roots"], r["existing"], r["args"])
+        if exp is not None and exp != r["result"]:
+            kind = ("outside-arg-accepted" if exp[:1] == ["err"] else "inside-arg-rejected" if r["result"][:1] == ["err"] else "rewritten-wrongly")
+            out.report({"kind": kind, "function": "make_reltoroot"}, {"roots": r["roots"], "args": r["args"], "expected": exp, "got": r["result"]}, j)
         # monitor: selectors preserved, non-existing args untouched
         if r["result"][:1] != ["err"]:
             for a, b in zip(r["args"], r["result"]):
@@ -73,6 +80,14 @@ def run(out: common.Outcome):
         rj.append({"kind": "rsync_filter", "ignores": ign, "path": p}); rin.append([ign, p])
     rres = run_jobs("drive_pure.py", rj, nproc=6)
     corr.compare("HostRSync.filter", "rsync_filter", rin, rres, nontrivial=lambda i, o: o == 0)
+    import fnmatch as _fn, posixpath as _pp
+    for (ign, p), o in zip(rin, rres):
+        # the documented rule, stated with the library matcher: excluded iff base name or full path matches some pattern
+        norm = _pp.normpath(p) if p else p
+        want = int(not any(_fn.fnmatchcase(_pp.basename(norm), g) or _fn.fnmatchcase(norm, g) for g in ign))
+        if isinstance(o, int) and o != want:
+            out.report({"kind": "filter-" + ("excludes-unmatched" if want else "keeps-matched"), "function": "HostRSync.filter"},
+                       {"ignores": ign, "path": p, "kept": o, "expected_kept": want}, {"kind": "rsync_filter", "ignores": ign, "path": p})
     # ---- which specs synchronise
     sj, sin = [], []
     for _ in range(40 if out.tier == "quick" else 400):
@@ -90,6 +105,25 @@ def run(out: common.Outcome):
                             "negation, ranges, unterminated '['; ignore lists = defaults + user patterns; all spec kinds (popen/ssh x chdir)")
     out.assumptions += ["fnmatch.translate modelled for patterns without degenerate ranges ('z-a', '--'); patterns outside that subset are not generated",
                         "pathlib's lexical normalisation (no symlinks, no '//' anchor)"]
+
+
+def _expected_reltoroot(roots, existing, args):
+    """the documented behaviour computed on path components (PurePosixPath.parts), independent of model and code under test"""
+    from pathlib import PurePosixPath as P
+    res = []
+    for a in args:
+        parts = a.split("::")
+        if parts[0] not in existing:
+            res.append(a); continue
+        fp = P(parts[0]).parts
+        for r in roots:
+            rp = P(r).parts
+            if fp[:len(rp)] == rp and (len(rp) > 0):
+                rel = "/".join(fp[len(rp):]) or "."
+                res.append("::".join([P(r).name + "/" + rel] + parts[1:])); break
+        else:
+            return ["err", "ValueError"]
+    return res
 
 
 def replay(out, path):
